@@ -719,19 +719,32 @@ def exact_composites(sch, m_name):
     with a custom offset): the cursor accessor constants cannot be reconstructed from the leaves then"""
     types = {t['name']: t for t in sch['types'] if 'name' in t}
 
-    def first_off(e):
-        k = e.get('k')
-        if k == 'composite':
-            for x in e['elems']:
-                if x.get('k') == 'type' and x.get('presence') == 'constant':
-                    continue
-                if x.get('offset') not in (None, 0, '0'):
-                    return True
-                return first_off(x)
+    def resolve(e):
+        while e is not None and e.get('k') == 'ref':
+            e = types.get(e.get('type'))
+        return e
+
+    def is_const(e):
+        t = resolve(e)
+        if t is None:
             return False
-        if k == 'ref':
-            t = types.get(e.get('type'))
-            return first_off(t) if t else False
+        if t.get('k') == 'type':
+            return t.get('presence') == 'constant'
+        if t.get('k') == 'composite':
+            return all(is_const(x) for x in t['elems'])
+        return False
+
+    def first_off(e):
+        """does the first non-constant element (recursively) sit at a non-zero offset of `e`?"""
+        t = resolve(e)
+        if t is None or t.get('k') != 'composite':
+            return False
+        for x in t['elems']:
+            if is_const(x):
+                continue
+            if x.get('offset') not in (None, 0, '0'):
+                return True
+            return first_off(x)
         return False
 
     def lv(level):
